@@ -72,7 +72,14 @@ def run_case(prop, cfg, ops, opts=None, wall=60):
             io = getattr(w, "io_fault_op", None)
             if io is not None:
                 plan[io] = ("either",)
-        if w.faulted and not opts.get("no_control") and \
+        direct = v.oracle.startswith((
+            "crash-", "ioerror-file-neither", "ioerror-file-undecodable",
+            "ioerror-swallowed", "ioerror-replaced",
+            "files-left-behind-after-ioerror", "reopen-after-ioerror",
+            "failed-insert", "read-during-failed-insert"))
+        # what the fault did at the faulted operation itself needs no
+        # control; what goes wrong later does
+        if w.faulted and not direct and not opts.get("no_control") and \
                 _control_diverges(cfg, ops, v.op_index, plan):
             # the same history without the injected fault goes wrong as
             # well: whatever this is, it is not a consequence of the fault
@@ -162,7 +169,13 @@ def _control_diverges(cfg, ops, upto, plan=None):
                 return True
             except Exception:
                 continue
-            if w2.foreign is not None or w2.soft_foreign:
+            if w2.foreign is not None:
+                return True
+            relevant = [k for k in w2.stats if k.startswith("foreign-soft:")
+                        and k[13:] not in ("files-left-behind",
+                                           "bytes-changed",
+                                           "write-allowed-in-mode")]
+            if relevant:
                 return True
         return False
     finally:
